@@ -22,7 +22,8 @@ AddSub  == Spend /\ MaxDepth > 0 /\ doc' \in NewSubExt(doc)
 AddDeep == Spend /\ MaxDepth > 0 /\ doc' \in Ext(doc, MaxDepth) \ (LeafExt(doc) \cup NewSubExt(doc))
 Next == AddLeaf \/ AddSub \/ AddDeep
 Spec == Init /\ [][Next]_vars
-InitSeeds == doc \in Seeds /\ budget = SeedLevels
+InitSeeds == (doc \in Seeds \cup (IF WithUnsupported THEN SeedsUns ELSE {}) /\ budget = SeedLevels)
+             \/ (doc \in Seeds0 /\ budget = 0)
 SeedSpec == InitSeeds /\ [][Next]_vars
 
 Export ==
